@@ -39,6 +39,30 @@ pub fn c03(cx: &mut Ctx) {
             }
         }
     }
+    // the head written once more after it is complete (a transport loop that writes until it gets nothing), into
+    // buffers with and without room for a terminator: the body that follows is still the caller's to write and end
+    for (m, ver, despite) in [("POST", "HTTP/1.1", false), ("PUT", "HTTP/1.1", false), ("POST", "HTTP/1.0", false), ("GET", "HTTP/1.1", true), ("GET", "HTTP/1.0", true), ("HEAD", "HTTP/1.0", true)] {
+        for extra in [0usize, 4, 5, 6, 4096] {
+            for times in [1usize, 2] {
+                cx.case("headagain");
+                cx.rec.new_flow(&format!("{} {} http://a.test/p 0", m, ver));
+                if despite { cx.op("despite"); }
+                cx.op("proceed");
+                cx.op("write 4096");
+                for _ in 0..times { cx.op(&format!("write {}", extra)); }
+                cx.op("canproceed");
+                cx.op("proceed");
+                if cx.rec.state() != "sendBody" { continue; }
+                cx.op("chunked?");
+                cx.op("canproceed");
+                bwrite(cx, 2, 3, 64);
+                cx.op("canproceed");
+                bwrite(cx, 5, 0, 64);
+                cx.op("canproceed");
+                cx.op("proceed");
+            }
+        }
+    }
     // caps leaving exactly 0..8 bytes after a chunk
     for body in [1usize, 9, 15, 16, 17, 255, 256, 257, 4095, 4096, 4097] {
         for extra in 0..=9usize {
@@ -459,6 +483,17 @@ pub fn c18(cx: &mut Ctx) {
             if m > 0 { bwrite(cx, n, m, n); }
         }
     }
+    // a body sent despite the method, either version, no framing header of the caller's: chunked by default
+    for (m, ver) in [("GET", "HTTP/1.0"), ("HEAD", "HTTP/1.0"), ("GET", "HTTP/1.1"), ("DELETE", "HTTP/1.1"), ("OPTIONS", "HTTP/1.1")] {
+        cx.case("despite");
+        if !to_send_body(cx, m, ver, None, true) { continue; }
+        cx.op("chunked?");
+        for n in [0usize, 5, 6, 9, 10, 21, 100, 263, 4104, 10248, 10300] {
+            let res = cx.op(&format!("maxin {}", n));
+            let mx: usize = res.split(' ').nth(1).unwrap_or("0").parse().unwrap_or(0);
+            if mx > 0 { bwrite(cx, n, mx, n); }
+        }
+    }
     // framing chosen by the caller's headers, in the spellings the request analysis accepts
     let variants: Vec<Vec<(&str, &[u8])>> = vec![
         vec![("transfer-encoding", b"chunked")],
@@ -558,6 +593,17 @@ pub fn c19(cx: &mut Ctx) {
         while i <= top {
             bwrite(cx, i, i, cap);
             i += if cx.thorough || cap < 60 { 1 } else { 3 };
+        }
+    }
+    // a body sent despite the method (no framing header of the caller's), either version: the same progress
+    for (m, ver) in [("GET", "HTTP/1.0"), ("HEAD", "HTTP/1.0"), ("GET", "HTTP/1.1"), ("DELETE", "HTTP/1.1")] {
+        for cap in [6usize, 7, 9, 21, 64, 300] {
+            cx.case("despite");
+            if !to_send_body(cx, m, ver, None, true) { continue; }
+            cx.op("chunked?");
+            for i in [1usize, 2, cap, cap + 10] { bwrite(cx, i, i, cap); }
+            bwrite(cx, 0, 0, cap);
+            cx.op("canproceed");
         }
     }
     // caps around 16^k+5 and multiples of the chunk size, inputs to several chunks
